@@ -662,37 +662,21 @@ func (o *FilterOptimizer) intersectionRange(l, r *ScanType) *ScanType {
 		return l
 	}
 
-	var (
-		nstart []byte = nil
-		nend   []byte = nil
-	)
-
-	// | ^LS,RS | LE,RE$ |
-	// just use full scan instead
-	if lstart == nil && rstart == nil && lend == nil && rend == nil {
-		return &ScanType{FULL, nil}
+	// The intersection starts at the greater start and ends at the lesser end,
+	// a nil start being below and a nil end above every key.
+	nstart := lstart
+	if lstart == nil || (rstart != nil && bytes.Compare(rstart, lstart) > 0) {
+		nstart = rstart
+	}
+	nend := lend
+	if lend == nil || (rend != nil && bytes.Compare(rend, lend) < 0) {
+		nend = rend
 	}
 
-	if inRange(lstart, lend, rstart, false) && !inRange(lstart, lend, rend, true) {
-		// | LS | RS | LE | RE |
-		nstart = rstart
-		nend = lend
-	} else if inRange(rstart, rend, lstart, false) && !inRange(rstart, rend, lend, true) {
-		// | RS | LS | RE | LE |
-		nstart = lstart
-		nend = rend
-	} else if inRange(lstart, lend, rstart, false) && inRange(lstart, lend, rend, true) {
-		// | LS | RS | RE | LE |
-		nstart = rstart
-		nend = rend
-	} else if inRange(rstart, rend, lstart, false) && inRange(rstart, rend, lend, true) {
-		// | RS | LS | LE | RE |
-		nstart = lstart
-		nend = lend
-	} else if !inRange(lstart, lend, rstart, false) && !inRange(lstart, lend, rend, true) {
-		// | LS | LE | RS | RE |
-		// | RS | RE | LS | LE |
-		// No result just return EMPTY
+	// | LS | LE | RS | RE |
+	// | RS | RE | LS | LE |
+	// No result just return EMPTY
+	if nstart != nil && nend != nil && bytes.Compare(nstart, nend) > 0 {
 		return &ScanType{EMPTY, nil}
 	}
 
@@ -701,7 +685,7 @@ func (o *FilterOptimizer) intersectionRange(l, r *ScanType) *ScanType {
 	}
 
 	// start == end just use MGET
-	if bytes.Compare(nstart, nend) == 0 {
+	if nstart != nil && nend != nil && bytes.Compare(nstart, nend) == 0 {
 		return &ScanType{MGET, [][]byte{nstart}}
 	}
 
@@ -722,47 +706,28 @@ func (o *FilterOptimizer) unionRange(l, r *ScanType) *ScanType {
 		rstart, rend = rend, rstart
 	}
 
-	// Same range just return left
-	if bytes.Compare(lstart, rstart) == 0 && bytes.Compare(lend, rend) == 0 {
+	// Same range just return left (an open bound is not the same as an empty one)
+	if (lstart == nil) == (rstart == nil) && (lend == nil) == (rend == nil) &&
+		bytes.Compare(lstart, rstart) == 0 && bytes.Compare(lend, rend) == 0 {
 		return l
 	}
 
+	// The union is covered by the range from the lesser start to the greater
+	// end, a nil start being below and a nil end above every key.
 	var (
 		nstart []byte = nil
 		nend   []byte = nil
 	)
-
-	// | ^LS,RS | LE,RE$ |
-	// just use full scan instead
-	if lstart == nil && rstart == nil && lend == nil && rend == nil {
-		return &ScanType{FULL, nil}
-	}
-
-	if inRange(lstart, lend, rstart, false) && !inRange(lstart, lend, rend, true) {
-		// | LS | RS | LE | RE |
+	if lstart != nil && rstart != nil {
 		nstart = lstart
-		nend = rend
-	} else if inRange(rstart, rend, lstart, false) && !inRange(rstart, rend, lend, true) {
-		// | RS | LS | RE | LE |
-		nstart = rstart
-		nend = lend
-	} else if inRange(lstart, lend, rstart, false) && inRange(lstart, lend, rend, true) {
-		// | LS | RS | RE | LE |
-		nstart = lstart
-		nend = lend
-	} else if inRange(rstart, rend, lstart, false) && inRange(rstart, rend, lend, true) {
-		// | RS | LS | LE | RE |
-		nstart = rstart
-		nend = rend
-	} else if !inRange(lstart, lend, rstart, false) && !inRange(lstart, lend, rend, true) {
-		if inRange(lstart, rstart, lend, true) {
-			// | LS | LE | RS | RE |
-			nstart = lstart
-			nend = rend
-		} else if inRange(rstart, lstart, rend, true) {
-			// | RS | RE | LS | LE |
+		if bytes.Compare(rstart, lstart) < 0 {
 			nstart = rstart
-			nend = lend
+		}
+	}
+	if lend != nil && rend != nil {
+		nend = lend
+		if bytes.Compare(rend, lend) > 0 {
+			nend = rend
 		}
 	}
 
@@ -771,7 +736,7 @@ func (o *FilterOptimizer) unionRange(l, r *ScanType) *ScanType {
 	}
 
 	// start == end just use MGET scan
-	if bytes.Compare(nstart, nend) == 0 {
+	if nstart != nil && nend != nil && bytes.Compare(nstart, nend) == 0 {
 		return &ScanType{MGET, [][]byte{nstart}}
 	}
 	return &ScanType{RANGE, [][]byte{nstart, nend}}
